@@ -256,6 +256,8 @@ def admonition(ctx):
     ctx.bounds.update({"lines": n, "line_options": ADM_LINES})
     kf = ctx.known("C03-marker-mid-line", replay_adm)
     opts = [l for l in ADM_LINES if not (kf and "foo@bug" in l)]
+    if n == 4:
+        opts = opts[:3] + opts[5:7] + opts[8:13]  # 10^4 programs
 
     def h(E):
         ls = [CV.choice(E, f"l{i}", opts) for i in range(n)]
